@@ -592,6 +592,48 @@ def eval_phc_b64(case):
 EVALS = {"phc_b64": eval_phc_b64, "synthetic": eval_synthetic, "generated": eval_generated, "alternate": eval_alternate, "special": eval_special, "libpass": eval_libpass}
 
 
+def eval_configured_reader(case):
+    """a hasher customised with using() still READS every well-formed hash of its format: a hash made under settings A,
+    parsed by the hasher configured with settings B, re-renders to itself, reports A's settings and verifies"""
+    name, A, B, p = case["hasher"], dict(case["made_with"] or {}), dict(case["reader"] or {}), case["password"]
+    ctx = dict(case.get("ctx") or {})
+    H = HS.handler(name)
+    key = f"C07|{name}|configured_reader:"
+    out = []
+    try:
+        h = (H.using(**A) if A else H).hash(p, **ctx)
+        R = H.using(**B) if B else H
+    except Exception:  # noqa: BLE001
+        return []
+    diff = "+".join(sorted(k for k in set(A) | set(B) if A.get(k) != B.get(k))) or "same"
+    for form, inp in (("str", h), ("bytes", h.encode("ascii") if h.isascii() else None)):
+        if inp is None:
+            continue
+        try:
+            if not R.identify(inp):
+                out.append((key + f"identify:{diff}", f"{name}.using(**{B!r}).identify({inp!r}) is False (made with {A!r})"))
+            ok, bad = R.verify(p, inp, **ctx), R.verify(p + "x", inp, **ctx)
+            if (ok is not True and name not in HS.DISABLED) or bad is not False:
+                out.append((key + f"verify:{diff}", f"{name}.using(**{B!r}).verify(right / wrong, {inp!r}) = {ok!r} / {bad!r} (made with {A!r})"))
+            if hasattr(R, "from_string") and not is_wrapper(name):
+                rec = R.from_string(inp)
+                s2 = rec.to_string()
+                if s2 != h:
+                    out.append((key + f"roundtrip:{diff}", f"{name}.using(**{B!r}).from_string({inp!r}).to_string() = {s2!r}"))
+                for a, d in attr_checks(name, H, rec, A):
+                    out.append((key + f"attr:{a}:{diff}", d + f" (hash {h!r} read by using(**{B!r}))"))
+                if hasattr(R, "genhash"):
+                    g = R.genhash(p, inp, **ctx)
+                    if g != h:
+                        out.append((key + f"genhash:{diff}", f"{name}.using(**{B!r}).genhash(p, {inp!r}) = {g!r}"))
+        except Exception as e:  # noqa: BLE001
+            out.append((key + f"raises:{type(e).__name__}:{diff}", f"{name}.using(**{B!r}) on {inp!r} (made with {A!r}) raised {e!r}"))
+    return out
+
+
+EVALS["configured_reader"] = eval_configured_reader
+
+
 def replay(case):
     return EVALS[case["part"]](case)
 
@@ -645,6 +687,22 @@ def run(ctx):
                 for v in vals:
                     cases.append({"part": "synthetic", "hasher": name, "settings": st, "attr": attr, "value": v,
                                   "ctx": HS.ctx_grid(name)[0], "label": f"{attr}={v}", "si": str(st.get("ident"))})
+    # part configured_reader: every ordered pair of settings that differ in a structure-bearing option
+    STRUCT = ("ident", "variant", "version", "block_size", "parallelism", "algs", "marker", "salt_size", "rounds", "truncate_error")
+    for name in HS.usable_names():
+        if name in HS.SLOW and HS.SLOW[name] >= 2:
+            continue
+        grid = HS.settings_grid(name, True, ctx.seed)
+        reps = {}
+        for st in grid:
+            sig = tuple(sorted((k, str(v)) for k, v in st.items() if k in STRUCT))
+            reps.setdefault(sig, st)
+        reps = list(reps.values())[: (6 if ctx.quick else 12)]
+        for ai, A in enumerate(reps):
+            for bi, B in enumerate(reps):
+                if ai != bi and HS.admissible(name, "pw", HS.ctx_grid(name)[0], A):
+                    cases.append({"part": "configured_reader", "hasher": name, "made_with": A, "reader": B, "password": "pw",
+                                  "ctx": HS.ctx_grid(name)[0], "si": f"{ai}>{bi}"})
     for name, label, h, p, st in special_strings():
         cases.append({"part": "special", "hasher": name, "label": label, "hash": h, "password": p, "settings": st})
     for kind, label, s in libpass_strings(ctx.quick, ctx.seed):
